@@ -174,13 +174,55 @@ class Pred:
                     o = (other, a[1])
                     if other != a[0] and o in idx and idx[a] < idx[o]:
                         excl.append((a, o))
+        # order axioms between comparisons of one quantity with numeric constants:
+        #   x < c1  =>  x < c2   (c1 <= c2);   c1 < x  =>  c2 < x   (c2 <= c1);   not (x < c1 and c2 < x)   (c1 <= c2)
+        impl = []
+        bounds = []
+        for a in atoms:
+            if a[0] != "lt" or a not in self.atoms:
+                continue
+            _k, na, nb = self.atoms[a]
+            ca, cb = self._num(na), self._num(nb)
+            if cb is not None and ca is None:
+                bounds.append((a, a[1], "ub", cb))
+            elif ca is not None and cb is None:
+                bounds.append((a, a[2], "lb", ca))
+        for (a1, x1, k1, c1), (a2, x2, k2, c2) in itertools.permutations(bounds, 2):
+            if x1 != x2:
+                continue
+            if k1 == k2 == "ub" and c1 <= c2:
+                impl.append((a1, a2))
+            elif k1 == k2 == "lb" and c2 <= c1:
+                impl.append((a1, a2))
+            elif k1 == "ub" and k2 == "lb" and c1 <= c2:
+                excl.append((a1, a2))
         out = []
         for bits in itertools.product((False, True), repeat=len(atoms)):
             env = dict(zip(atoms, bits))
             if any(env[x] and env[y] for x, y in excl):
                 continue
+            if any(env[x] and not env[y] for x, y in impl):
+                continue
             out.append(env)
         return out
+
+    @staticmethod
+    def _num(n):
+        """numeric constant denoted by node n (through dtype casts), or None"""
+        for _ in range(3):
+            if n is None:
+                return None
+            if n.op == "Const" and isinstance(n.attr, (int, float)) and not isinstance(n.attr, bool):
+                return n.attr
+            if n.op == "UnaryOp" and n.attr == "USub":
+                v = Pred._num(n.args[0])
+                return None if v is None else -v
+            if n.op == "Call" and len(n.args) == 2 and n.args[0].op == "Ext" and n.args[0].attr in (
+                    "numpy.float32", "numpy.float64", "builtins.float", "numpy.asarray"):
+                n = n.args[1]
+                continue
+            return None
+        return None
 
     def forall(self, f, *others) -> Optional[Tuple[bool, Optional[dict]]]:
         """is f true under every consistent assignment?  returns (bool, counterexample)"""
